@@ -160,8 +160,8 @@ PROPS['C07'] = dict(
 )
 PROPS['C13'] = dict(
     title='reserved words',
-    units=['kwstack'],
-    engines=[dict(module='gvc.engine', args=dict(analyses=('ident', 'faithful', 'kwsites', 'lexers'))), REPLAY],
+    units=['kwstack', 'arms'],
+    engines=[dict(module='gvc.engine', args=dict(analyses=('ident', 'faithful', 'kwsites', 'lexers', 'entries'))), REPLAY],
     shims=['A-nom', 'A-packrat'],
     design='DESIGN.md 3/C13',
     technique='Verus contracts on the keyword-version stack and is_keyword (unit kwstack); generated obligations on the identifier lexers and the keyword tables of the real parser sources (construction sites, keyword check, table contents against the reference lists, begin/end pairing on every path)',
